@@ -26,7 +26,7 @@ ASSUMPTIONS = [
     "angular momentum is asserted to rounding for whfast/saba/eos/leapfrog/janus (compositions of maps that conserve L exactly); "
     "for IAS15, BS, MERCURIUS and TRACE to the accuracy class stated in the module (L_CLASS)",
     "energy accuracy classes (E_CLASS) are a-priori generous bounds, not sharp: IAS15 1e-12*sqrt(steps) of sum|terms|, "
-    "BS 3e3*eps_rel*steps, Wisdom-Holman family 100*(planet/star mass)*(dt/P_min)^2 (2000* for WHFast barycentric coordinates) relative to the binding-energy scale, T+V splittings 20*(2 pi dt/P_min)^2",
+    "BS 30*eps_rel*steps, Wisdom-Holman family 100*(planet/star mass)*(dt/P_min)^2 (2000* for WHFast barycentric coordinates) relative to the binding-energy scale, T+V splittings 20*(2 pi dt/P_min)^2",
     "reb_simulation_energy is compared without softening (it does not include it) and with all particles active",
     "JANUS conserves on its integer grid: tolerances get an additive term steps*stages*sum|m|*scale",
 ]
@@ -207,7 +207,7 @@ class Tracker:
         if fam == "ias15":
             return 1e-12 * math.sqrt(n)
         if fam == "bs":
-            return 1e3 * sets.get("ri_bs.eps_rel", 1e-8) * n
+            return 30.0 * sets.get("ri_bs.eps_rel", 1e-8) * n
         if self.barycentric:
             x = self.dt / self.P_min
             return 500.0 * self.eps_mass * x * x + K_L * EPS * n
@@ -226,7 +226,7 @@ class Tracker:
         if fam == "ias15":
             return 1e-12 * math.sqrt(n) * Esc
         if fam == "bs":
-            return 3e3 * sets.get("ri_bs.eps_rel", 1e-8) * n * Esc
+            return 30.0 * sets.get("ri_bs.eps_rel", 1e-8) * n * Esc
         if fam in WH_FAMILY:
             # measured maxima of |dE| / (eps_mass x^2 sum|terms|) over 4500 random systems: jacobi 0.16, democratic
             # heliocentric 0.56, whds 0.35, saba 0.43, trace 2.0, mercurius 3.7, barycentric 63
@@ -265,6 +265,40 @@ def whfast_by_coordinates(draw):
     return {"integrator": "whfast", "set": sets, "family": "whfast", "fixed_step": True}
 
 
+@st.composite
+def jacobi_few_body(draw, nmin=3, nmax=4):
+    """Hierarchical system of comparable masses built in Jacobi fashion: body i is put on a Kepler orbit (e<=0.2,
+    inc<=0.3) about the centre of mass of bodies 0..i-1 with semi-major axes growing by a factor 6-12 per level, so
+    that the hierarchy is dynamically stable.  (strategies.few_body places every body relative to body 0, which for
+    mass ratios of 0.1-0.3 leaves the outer bodies on plunging orbits: not the 'stable regime' of the property.)"""
+    n = draw(st.integers(nmin, nmax))
+    Gv = draw(st.sampled_from(S.G_VALUES))
+    m0 = draw(st.sampled_from([1.0, 0.5, 2.0]))
+    parts = [{"m": m0, "x": 0.0, "y": 0.0, "z": 0.0, "vx": 0.0, "vy": 0.0, "vz": 0.0}]
+    a = draw(S.floats(0.5, 2.0))
+    pmin = pmax = None
+    for i in range(1, n):
+        m = draw(S.logfloats(0.01, 0.3)) * m0
+        M = sum(p["m"] for p in parts)
+        com = [sum(p["m"] * p[k] for p in parts) / M for k in ("x", "y", "z", "vx", "vy", "vz")]
+        e = draw(st.one_of(S.floats(0.0, 0.2), st.just(0.0)))
+        inc = draw(st.one_of(S.floats(0.0, 0.3), st.just(0.0)))
+        mu = Gv * (M + m)
+        sv = S.el2cart(mu, a, e, inc, draw(S.angles), draw(S.angles), draw(S.angles))
+        parts.append({"m": m, "x": com[0] + sv[0], "y": com[1] + sv[1], "z": com[2] + sv[2],
+                      "vx": com[3] + sv[3], "vy": com[4] + sv[4], "vz": com[5] + sv[5]})
+        P = 2 * math.pi * math.sqrt(a ** 3 / mu)
+        pmin = P if pmin is None else min(pmin, P)
+        pmax = P if pmax is None else max(pmax, P)
+        a *= draw(S.floats(6.0, 12.0))
+    M = sum(p["m"] for p in parts)
+    for k in ("x", "y", "z", "vx", "vy", "vz"):
+        c = sum(p["m"] * p[k] for p in parts) / M
+        for p in parts:
+            p[k] -= c
+    return {"G": Gv, "particles": parts, "P_min": pmin, "P_max": pmax}
+
+
 ANY_CFG = st.one_of(S.integrator_config(), S.integrator_config(), whfast_by_coordinates())
 
 conserve_case = st.one_of(
@@ -277,7 +311,7 @@ conserve_case = st.one_of(
         "dt_frac": S.logfloats(2e-3, 0.05), "back": st.booleans(), "boost": boost,
         "ops": st.lists(op, min_size=3, max_size=8)}),
     st.fixed_dictionaries({
-        "system": S.few_body(), "cfg": S.integrator_config(NON_WH),
+        "system": jacobi_few_body(), "cfg": S.integrator_config(NON_WH),
         "dt_frac": S.logfloats(2e-3, 0.03), "back": st.booleans(), "boost": boost,
         "ops": st.lists(op, min_size=3, max_size=8)}),
 )
@@ -353,46 +387,6 @@ def run_conserve(case, ctx):
     n = sim.steps_done
     if sim.N >= 3 and n >= 100 and ncheck >= 3 and synced_mid:
         ctx.nontrivial()
-
-
-# ---------------------------------------------------------------------------------------------
-# sub-check "drift" (thorough only): symplectic energy error does not drift
-
-drift_case = st.fixed_dictionaries({
-    "system": S.hierarchical_system(nmin=2, nmax=4),
-    "cfg": S.integrator_config(["whfast", "saba", "leapfrog", "eos", "janus", "mercurius", "trace"]),
-    "dt_frac": S.logfloats(5e-3, 0.05),
-    "n": st.integers(2000, 10000),
-})
-
-
-def run_drift(case, ctx):
-    from .. import rb
-    from ..oracles import c04_invariants as inv
-    rb.quiet()
-    sysd = case["system"]
-    sim = rb.new_sim({"G": sysd["G"], "particles": sysd["particles"]})
-    apply_cfg(sim, case["cfg"])
-    sim.dt = case["dt_frac"] * sysd["P_min"]
-    E0 = inv.invariants(inv.parr(sim), sim.G)["E"]
-    n = case["n"]
-    chunk = max(1, n // 80)
-    errs = []
-    while sim.steps_done < n:
-        sim.steps(chunk)
-        sim.synchronize()
-        errs.append(abs(float(inv.invariants(inv.parr(sim), sim.G)["E"] - E0)))
-    h = len(errs) // 2
-    first, second = max(errs[:h]), max(errs[h:])
-    Esc = float(inv.invariants(inv.parr(sim), sim.G)["Esc"])
-    floor = 64 * EPS * n * Esc
-    ctx.stat_max("drift_ratio[%s]" % case["cfg"]["family"], second / (first + floor))
-    ctx.cls(case["cfg"]["family"])
-    if sim.N >= 3:
-        ctx.nontrivial()
-    if second > 3.0 * first + floor:
-        raise Violation("energy error of %s drifts: max|dE| %.3e over the second half of %d steps, %.3e over the first"
-                        % (case["cfg"]["family"], second, n, first))
 
 
 # ---------------------------------------------------------------------------------------------
@@ -657,6 +651,4 @@ def subs(tier):
         Sub("merge", run_merge, strategy=merge_case, quick=600, thorough=6000, shards_quick=4, shards_thorough=16),
         Sub("diagnostics", run_diag, strategy=diag_case, quick=3000, thorough=60000, shards_quick=2, shards_thorough=8),
     ]
-    if tier == "thorough":
-        out.append(Sub("drift", run_drift, strategy=drift_case, quick=0, thorough=600, shards_quick=1, shards_thorough=16))
     return out
